@@ -213,6 +213,12 @@ def judge(
         )
 
 
+# alphabet of the front-end phase (spreadsheet -> parse_ods -> compute_tax): lots of all three price ranks, two of them paying their fee in
+# crypto - the parser turns each fee into a fee-typed disposal at the instant of the acquisition, which takes lots in method order too
+FE_SYMBOLS = [H.B(2, 1), H.B(1, 2, fee="1/4"), H.B(3, 1, fee="1/2"), H.E(2, 1), H.S(1), H.S(2), H.M(2, 1)]
+FE_FIRST = [s for s in FE_SYMBOLS if s[0] in ("B", "E")]
+
+
 def plan(tier: str) -> List[Dict[str, Any]]:
     """List of exploration phases: each is enumerated level by level."""
     singles = single_schedules()
@@ -226,6 +232,8 @@ def plan(tier: str) -> List[Dict[str, Any]]:
             {"name": "sheet order reversed", "schedules": singles, "steps": ("=", "d"), "depth": 3, "dev": 0, "group": 4, "row_order": "reverse"},
             {"name": "two-year schedules across New Year, one transaction in another UTC offset", "schedules": two, "steps": ("=", "d"), "depth": 3, "dev": "newyear", "group": 3,
              "from_depth": 2},
+            {"name": "front end: crypto-fee acquisitions through parse_ods", "schedules": singles, "steps": ("=", "d"), "depth": 3, "dev": "front", "group": 4, "symbols": "fe"},
+            {"name": "front end, sheet order reversed", "schedules": singles, "steps": ("=", "d"), "depth": 3, "dev": "front", "group": 4, "symbols": "fe", "row_order": "reverse"},
         ]
     return [
         {"name": "single methods", "schedules": singles, "steps": ("=", "d"), "depth": 5, "dev": 0, "group": 1},
@@ -237,6 +245,8 @@ def plan(tier: str) -> List[Dict[str, Any]]:
         {"name": "sheet order reversed, schedules", "schedules": two, "steps": ("=", "d", "y"), "depth": 3, "dev": 0, "group": 4, "row_order": "reverse"},
         {"name": "two-year schedules across New Year, one transaction in another UTC offset", "schedules": two, "steps": ("=", "d"), "depth": 4, "dev": "newyear", "group": 2,
          "from_depth": 2},
+        {"name": "front end: crypto-fee acquisitions through parse_ods", "schedules": singles + two, "steps": ("=", "d", "y"), "depth": 4, "dev": "front", "group": 2, "symbols": "fe"},
+        {"name": "front end, sheet order reversed", "schedules": singles, "steps": ("=", "d"), "depth": 4, "dev": "front", "group": 2, "symbols": "fe", "row_order": "reverse"},
     ]
 
 
@@ -245,7 +255,11 @@ def main(tier: str, budget_s: Optional[float] = None) -> int:
     budget = budget_s or (240 if tier == "quick" else 3300)
     deadline = t0 + budget
     phases = plan(tier)
-    total, info, complete = run_phases(phases, generic_worker, FIRST, SYMBOLS, EXTRA, deadline, __name__)
+    total, info, complete = run_phases([ph for ph in phases if ph.get("symbols") != "fe"], generic_worker, FIRST, SYMBOLS, EXTRA, deadline, __name__)
+    t2, i2, c2 = run_phases([ph for ph in phases if ph.get("symbols") == "fe"], generic_worker, FE_FIRST, FE_SYMBOLS, EXTRA, deadline, __name__)
+    total.merge(t2)
+    info += i2
+    complete = complete and c2
     new, matched = common.report(PROP, total.violations)
     coverage = {
         "states": total.get("states"),
